@@ -8,15 +8,24 @@
     * only PREDEFINED bot messages flow into `_render_string`; the text produced from an LLM completion
       reaches `BotMessage.text` without passing through the renderer (parametricity in `render`).
 
+    * (phase 2/4) dataflow over an IR regenerated from the source: no template sink receives LLM text, a context value
+      (= stored LLM text) or history text — in particular inside `_render_string` the template SOURCE depends on the
+      `template_str` parameter and literals only (`llm_text_not_rendered_ir`);
+    * (phase 4) the multi-step turn with the try/except structure of `_process_start_flow` and the `generate_events` loop, the
+      parser being an oracle that may raise anything: no parser behaviour makes the turn raise; full strength for the repaired
+      runtime (`multi_step_never_raises_repaired`), partial + counterexamples as is;
+    * (phase 4) `literal_eval` as an oracle: the wrapper of 2.x GenerateValueAction (`generate_value_v2_total`, repaired).
+
   What is NOT carried by a theorem (search territory of the check, see design_notes/C17.md):
-    * code outside actions that consumes LLM-derived text: Colang 1.0 `_process_start_flow` (multi-step
-      generation), Colang 2.x `AddFlowsAction` and the execution of generated flows, `literal_eval`;
+    * Jinja, `literal_eval`, the Colang parsers, `compute_next_steps` (oracles here), Colang 2.x `AddFlowsAction` and the
+      execution of generated flows, `eval_expression`;
     * the full statement
         ∀ mode cfg history (outs : List Str), ∃ reply, generate cfg mode history outs = .ok reply ∧ WellFormed reply
           ∧ ∀ sentinel ∈ templateSyntax outs, Literal sentinel reply
-      over the real runtimes.  It is FALSE on the current tree (open findings: multi-step mode lets an
-      exception escape / never returns; `bot $var` as an LLM-predicted intent is dereferenced; generated 2.x
-      flows interpolate `{…}`), and is examined end-to-end with the hostile corpus.
+      over the real runtimes.  It is FALSE on the current tree (open findings: in multi-step mode an expression error of an
+      LLM-written flow and the 100-event valve leave `generate`; `bot $var` as an LLM-predicted intent is dereferenced;
+      generated 2.x flows interpolate `{…}`; non-plain literals break the 2.x state serialisation), and is examined end-to-end
+      with the hostile corpus, incl. the stored-then-quoted conversations.
 -/
 import NemoVerif.Lemmas.LlmText
 import NemoVerif.Lemmas.LlmGen
